@@ -376,8 +376,12 @@ class RunningFailureMonitor(Monitor):
                 if namespec not in run.procs:
                     continue
                 self.count('lost_processes_with_a_stop_job_checked')
+                # other processes of the application lost at the same time without a stop job: an application-level
+                # action may be theirs
+                others = [ns for ns in record['lost'].get(app, []) if ns not in names]
                 starts = [p for p in self.plans_of(nick, inc, 'start_process', namespec, t) +
-                          self.plans_of(nick, inc, 'start_application', app, t) if p[0] <= t + 12 * TICK]
+                          ([] if others else self.plans_of(nick, inc, 'start_application', app, t))
+                          if p[0] <= t + 12 * TICK]
                 if starts:
                     self.violate('C06/failure-handled-although-a-stop-job-was-planned',
                                  f"instance {record['lost_instance']} lost, acknowledged by the Master {nick} at "
